@@ -17,6 +17,7 @@ MODELS = {
     "os2_cap2": {"Pts": ("<-", "Pts_os2_cap2"), "EvMax": ("<-", "EvMax_os2")},
     "os2_max1": {"Pts": ("<-", "Pts_os2_cap1"), "EvMax": ("<-", "EvMax_os1")},
     "mixed":    {"Pts": ("<-", "Pts_mixed"),    "EvMax": ("<-", "EvMax_mixed")},
+    "os_big":   {"Pts": ("<-", "Pts_os_big"),   "EvMax": ("<-", "EvMax_mixed")},
 }
 GROUPS_QUICK = [("os2_cap1", 1), ("os2_cap2", 0), ("os2_max1", -1), ("mixed", 1)]
 GROUPS_THOROUGH = GROUPS_QUICK + [("os2_cap1", -1), ("os2_cap1", 0), ("os2_cap2", 1), ("mixed", 0),
